@@ -50,7 +50,7 @@ static void *v_memmove(void *dst, const void *src, size_t n)
 #else
 #define A09(c, m) ((void)0)
 #endif
-#ifdef CHK_C10
+#if defined(CHK_C10) || defined(CHK_C09) /* "fails without effect" is part of C09 as well */
 #define A10(c, m) V_ASSERT(c, m)
 #else
 #define A10(c, m) ((void)0)
